@@ -187,7 +187,7 @@ def strategy_(draw, tier):
         tail = [n_, draw(st.integers(1, n_ - 1))]
     return {"tail_reserve": tail, "tail_dup": draw(st.sampled_from([None, None, 0, 0, 1])),
             "nsess": nsess, "ndds": draw(st.sampled_from([0, 0, 1, 4, 40])), "cache": draw(st.booleans()),
-            "gattr": draw(st.booleans()),
+            "gattr": draw(st.booleans()), "grgattr": draw(st.integers(0, 2)),
             "sd_first": draw(st.booleans()), "objs": objs, "ann": ann,
             "q": [[draw(st.integers(0, 3)), draw(st.sampled_from([1, 1, 2, 3, 5, 64]))] for _ in range(4)]}
 
@@ -385,6 +385,13 @@ def build_sessions(case, d, model):
                     if not gr_open:
                         p.call("i", "GRstart", V("f"), bind="gr")
                         gr_open = True
+                        if case.get("grgattr") and "_grgattr" not in model:
+                            # file (global) attributes of the GR interface
+                            model["_grgattr"] = [vals("int32", 3, 31)]
+                            p.call("i", "GRsetattr", V("gr"), "grglob", 24, 3, native(model["_grgattr"][0]))
+                            if case["grgattr"] == 2:
+                                model["_grgattr"].append(vals("float32", 2, 32))
+                                p.call("i", "GRsetattr", V("gr"), "grglob2", 5, 2, native(model["_grgattr"][1]))
                     nt = o["nt"]
                     m = model.setdefault(o["name"], dict(kind="gr", o=o))
                     p.call("i", "GRcreate", V("gr"), o["name"], o["ncomp"], NTS[nt][0], 0, i32s(o["xdim"], o["ydim"]), bind="ri")
@@ -644,6 +651,10 @@ def check(case, d, labels):
         grs = [o for o in others if o["kind"] == "gr" and o["name"] in model]
         if grs:
             q.call("i", "GRstart", V("f"), bind="gr")
+            if model.get("_grgattr"):
+                ln = dict(info=q.call("i", "GRfileinfo", V("gr"), Out(4), Out(4)),
+                          vals=[q.call("i", "GRgetattr", V("gr"), i, Out(16)) for i in range(len(model["_grgattr"]))])
+                plan.append(("grglob", None, ln))
             for oi, o in enumerate(grs):
                 st_, cnt = Q[(oi + 2) % len(Q)]
                 m = model[o["name"]]
@@ -943,6 +954,14 @@ def check(case, d, labels):
                     if b"".join(at(o_, l_) for o_, l_ in exp) != m["data"]:
                         raise Fail("element %d/%d: bytes at the reported raw locations are not the data" % (
                             o["tag"], o["ref"]), blocks=exp[:6], program=prog)
+        elif what == "grglob":
+            want = model["_grgattr"]
+            if r(ln["info"]) != 0 or un_i32s(qq.res[ln["info"]].bufs[1])[0] != len(want):
+                raise Fail("GR file attributes: GRfileinfo reports another count than was set", expected=len(want),
+                           observed=un_i32s(qq.res[ln["info"]].bufs[1])[0], program=prog)
+            for l_, w_ in zip(ln["vals"], want):
+                if r(l_) != 0 or qq.res[l_].bufs[0][:w_.nbytes] != native(w_):
+                    raise Fail("GR file attribute differs from what was set", program=prog)
         elif what == "gr":
             m = model[o["name"]]
             if r(ln["sel"]) == -1 or o["name"] not in ind_img:
